@@ -4,7 +4,8 @@
    * + ? {m} {m,n}, \d \s \w.  Render gives the pattern text, Den its denotation over Sigma^<=L. *)
 EXTENDS PyRegexSem
 CONSTANTS Depth
-Items == { [k |-> "c", c |-> c] : c \in {"a", "-", "]", ".", "*", "(", "+"} } \cup { [k |-> "r", lo |-> "a", hi |-> "c"], [k |-> "r", lo |-> "0", hi |-> "9"], [k |-> "s", s |-> "d"] }
+Items == { [k |-> "c", c |-> c] : c \in {"a", "-", "]", ".", "*", "(", "+"} } \cup { [k |-> "r", lo |-> "a", hi |-> "c"], [k |-> "r", lo |-> "0", hi |-> "9"], [k |-> "s", s |-> "d"],
+                                                                         [k |-> "r", lo |-> "*", hi |-> "0"], [k |-> "r", lo |-> "+", hi |-> "9"], [k |-> "r", lo |-> " ", hi |-> "-"] }
 Atoms == { [t |-> "lit", c |-> c] : c \in {"a", "b", ".", "*", "-", "(", "+", "?", " "} } \cup { [t |-> "dot"] }
          \cup { [t |-> "short", s |-> k] : k \in {"d", "s", "w"} }
          \cup { [t |-> "set", neg |-> n, items |-> <<i>>] : n \in BOOLEAN, i \in Items }
@@ -16,7 +17,9 @@ Quant(X) == { [t |-> q, x |-> x] : q \in {"star", "plus", "opt"}, x \in X }
 Bin(X, Y) == { [t |-> b, l |-> x, r |-> y] : b \in {"cat", "alt"}, x \in X, y \in Y }
 Small == { [t |-> "lit", c |-> "a"], [t |-> "lit", c |-> "b"], [t |-> "dot"], [t |-> "set", neg |-> TRUE, items |-> <<[k |-> "c", c |-> "a"]>>] }
 D1 == Atoms \cup Quant(Atoms) \cup Bin(Small, Small)
-D2 == D1 \cup Quant(Bin(Small, Small)) \cup Bin(Quant(Small), Small)
+StarCat == { [t |-> q, x |-> [t |-> "cat", l |-> x, r |-> [t |-> q2, x |-> y]]] : q \in {"star", "plus"}, q2 \in {"star", "plus", "opt"},
+                                                                                  x \in Small, y \in { [t |-> "lit", c |-> "a"], [t |-> "lit", c |-> "b"] } }
+D2 == D1 \cup Quant(Bin(Small, Small)) \cup Bin(Quant(Small), Small) \cup StarCat \cup Bin(StarCat, { [t |-> "lit", c |-> "c"] })
 Tiny == { [t |-> "lit", c |-> "a"], [t |-> "dot"], [t |-> "set", neg |-> FALSE, items |-> <<[k |-> "r", lo |-> "a", hi |-> "c"]>>] }
 D3 == D2 \cup Bin(Small, Quant(Small)) \cup Quant(Quant(Tiny)) \cup Bin(Bin(Tiny, Tiny), Tiny) \cup Bin(Tiny, Bin(Tiny, Tiny))
       \cup Quant(Bin(Quant(Tiny), Tiny))
